@@ -22,6 +22,25 @@ META = {
 }
 KEYS = ["a", "b", "c", "title"]
 VALUES = [1, 2, "x", (1, 2), {"n": 1}, 0, False, "", 0.0, (), True, ["a.root"], ["a.root", "b.root"], ["b.root"], []]
+try:
+    # values whose `==` has no truth value and whose printed form hides where they differ: told apart by being the object that was set
+    import numpy as _np
+
+    VALUES += [_np.array([0.1, 0.2]), _np.array([0.1, 0.2000000001]), _np.arange(1500.0), _np.concatenate([_np.arange(750.0), [0.5], _np.arange(751.0, 1500.0)])]
+    _OPAQUE = (_np.ndarray,)
+except ImportError:  # pragma: no cover
+    _OPAQUE = ()
+
+
+def differs(got, exp):
+    """is ``got`` something else than the value most recently set (not one that merely compares equal: 1 / True / 1.0, 0.0 / -0.0)"""
+    if isinstance(exp, _OPAQUE) or isinstance(got, _OPAQUE):
+        return got is not exp
+    return got != exp or type(got) is not type(exp) or repr(got) != repr(exp)
+
+
+def ident(v):
+    return ("id", id(v)) if isinstance(v, _OPAQUE) else repr(v)
 
 
 def run_history(ctx, hseed, nsteps):
@@ -49,7 +68,7 @@ def run_history(ctx, hseed, nsteps):
                 ctx.evaluations += 1
                 got = lookup_query_metadata(e.s, k)
                 exp = model[e.id].get(k)
-                if got != exp or type(got) is not type(exp) or repr(got) != repr(exp):  # the value most recently set, not one that merely compares equal (1 / True / 1.0, 0.0 / -0.0)
+                if differs(got, exp):
                     why = "earlier-key-lost" if exp is not None and got is None else ("sees-unset-key" if exp is None else "wrong-value")
                     ctx.violation(
                         f"lookup:{why}",
@@ -84,7 +103,7 @@ def run_history(ctx, hseed, nsteps):
             tw[ne.id] = te  # twin has no QMetaData step
             for kk, vv in d.items():
                 prev = set_by_parent.setdefault((e.id, kk), set())
-                prev.add(repr(vv))
+                prev.add(ident(vv))
                 if len(prev) > 1:
                     sib_conflict = True
             if e.how.startswith("QMetaData"):
